@@ -21,6 +21,9 @@ func init() {
 		if ClockSchedHook != nil {
 			ClockSchedHook()
 		}
+		if FixedClockNs != 0 {
+			return FixedClockNs, 1, true
+		}
 		mu.Lock()
 		defer mu.Unlock()
 		if model == nil {
